@@ -133,6 +133,28 @@ Section TimedProofs.
         * apply in_map_iff in Hin. destruct Hin as (x & X & _). inversion X.
   Qed.
 
+  (* what an observer with a clock can check: if the request was sent at [send] (so received not earlier) and its
+     reply was read at [seen] (so decided not later), a queue-timeout answer must fit into that window *)
+  Theorem qt_window_sound cfg r st p send seen : stamps_ok st -> send <= t_arr st -> t_sel st <= seen ->
+    In (FromQueueTimeout, p) (fst (timed_step dispatch cfg r st)) ->
+    qt_window_ok (q_timeout r) (c_ht cfg) send seen = true.
+  Proof.
+    intros Hok Hs He Hin. destruct Hok as [Ha Hh].
+    assert (M1 : send / 1000000 <= t_arr st / 1000000) by (apply N.div_le_mono; [discriminate|exact Hs]).
+    assert (M2 : t_sel st / 1000000 <= seen / 1000000) by (apply N.div_le_mono; [discriminate|exact He]).
+    unfold qt_window_ok. unfold timed_step in Hin.
+    destruct (timed_invoke_cases r st) as [[Q E]|(Q & o & p' & n & d & E & Ho)]; rewrite E in Hin.
+    - unfold queue_expired, sub_ms, recv_stamp, ms_of, ns_per_ms in Q. apply orb_true_iff. left. lia.
+    - destruct (c_ht cfg =? 0) eqn:Z.
+      + destruct (oneway r); cbn in Hin; [destruct Hin|]. destruct Hin as [X|[]]. inversion X; subst. congruence.
+      + cbn [fst] in Hin. destruct (_ =? c_TARSONEWAY)%Z; [destruct Hin|].
+        destruct (ret_t st <=? wake_t cfg st).
+        * destruct (late cfg st) eqn:L.
+          -- apply orb_true_iff. right. unfold late, fire_t, ns_per_ms in L. lia.
+          -- destruct Hin as [X|[]]. inversion X; subst. congruence.
+        * apply in_map_iff in Hin. destruct Hin as (x & X & _). inversion X.
+  Qed.
+
   (* conversely: a request that carried a timeout and really waited that long is never executed, whatever the rest *)
   Theorem timed_waited_then_not_executed cfg r st : stamps_ok st -> (0 < q_timeout r)%Z ->
     (Z.of_N (waited st) >= q_timeout r * 1000000)%Z ->
